@@ -6,6 +6,7 @@
 //	read <hex>            bytes fed to marbl.Reader until it fails
 //	log <msg> <msg> ...   messages logged concurrently to one marbl.Stream
 //	m <msg> ... run       the same, one message per op (the shrinker drops messages)
+//	m <msg> ... runmod    the same through marbl.Modifier (ids = Context.ID() of real contexts)
 //	  msg = kind/id/api/pseudo,.../host/cl/te/hdrs/reads
 //	    kind   q (request) | s (response)
 //	    id     hex, >= 8 bytes (the frames carry id[:8])
@@ -513,7 +514,9 @@ func joinOr(sep string, l []string) string {
 	return strings.Join(l, sep)
 }
 
-func doLog(toks []string) core.Result {
+// doLog logs the messages concurrently, directly through Stream.LogRequest/LogResponse with the
+// op's ids, or (viaMod) through marbl.Modifier with the ids of real martian contexts.
+func doLog(toks []string, viaMod bool) core.Result {
 	var ms []*msg
 	for _, t := range toks {
 		m, ok := parseMsg(t)
@@ -526,7 +529,14 @@ func doLog(toks []string) core.Result {
 		return core.Result{Impl: "bad-op"}
 	}
 	rec := &recWriter{}
-	s := marbl.NewStream(rec)
+	var s *marbl.Stream
+	var mod *marbl.Modifier
+	if viaMod {
+		mod = marbl.NewModifier(rec) // its stream cannot be closed: flushed with a sentinel message below
+	} else {
+		s = marbl.NewStream(rec)
+	}
+	wireID := make([]string, len(ms))
 	gots := make([][]got, len(ms))
 	expect := make([][]pair, len(ms)) // what the message's (pseudo-)headers are, stated from the message
 	var removes []func()
@@ -598,6 +608,10 @@ func doLog(toks []string) core.Result {
 		if m.api {
 			ctx.APIRequest()
 		}
+		wireID[i] = m.id[:8]
+		if viaMod {
+			wireID[i] = ctx.ID()[:8]
+		}
 		wg.Add(1)
 		go func(i int, m *msg) {
 			defer wg.Done()
@@ -613,10 +627,18 @@ func doLog(toks []string) core.Result {
 			<-start
 			var wrapped io.ReadCloser
 			if m.kind == 'q' {
-				s.LogRequest(m.id, req)
+				if viaMod {
+					mod.ModifyRequest(req)
+				} else {
+					s.LogRequest(m.id, req)
+				}
 				wrapped = req.Body
 			} else {
-				s.LogResponse(m.id, res)
+				if viaMod {
+					mod.ModifyResponse(res)
+				} else {
+					s.LogResponse(m.id, res)
+				}
 				wrapped = res.Body
 			}
 			for k, st := range m.reads {
@@ -646,7 +668,24 @@ func doLog(toks []string) core.Result {
 	pm := panicked
 	panMu.Unlock()
 	closed := make(chan struct{})
-	go func() { s.Close(); close(closed) }()
+	sentinel := ""
+	go func() {
+		defer close(closed)
+		if !viaMod {
+			s.Close() // received by the writer goroutine only after its last Write returned
+			return
+		}
+		// every send of the sentinel returns only after the writer goroutine took the frame, i.e.
+		// after it finished writing everything sent before
+		sreq := &http.Request{Method: "FLUSH", URL: &url.URL{}, Header: http.Header{}, Body: http.NoBody}
+		sctx, rm, err := martian.TestContext(sreq, nil, nil)
+		if err != nil {
+			return
+		}
+		defer rm()
+		sentinel = sctx.ID()[:8]
+		mod.ModifyRequest(sreq)
+	}()
 	select {
 	case <-closed:
 	case <-time.After(10 * time.Second):
@@ -670,6 +709,19 @@ func doLog(toks []string) core.Result {
 
 	// ---- observations
 	fs, ind, end, res := parseBoth(streamBytes)
+	if viaMod && sentinel != "" {
+		var fs2, ind2 []frame
+		for j := range fs {
+			if fs[j].id != sentinel {
+				fs2 = append(fs2, fs[j])
+				if j < len(ind) {
+					ind2 = append(ind2, ind[j])
+				}
+			}
+		}
+		fs, ind = fs2, ind2
+		core.Count("log:via-modifier")
+	}
 	// interleaving statistics
 	switches := 0
 	for i := 1; i < len(fs); i++ {
@@ -703,7 +755,7 @@ func doLog(toks []string) core.Result {
 		if m.kind == 's' {
 			mt = 2
 		}
-		owner[key{m.id[:8], mt}] = i
+		owner[key{wireID[i], mt}] = i
 	}
 	perMsg := make([][]int, len(ms)) // frame indices in stream order
 	stray := -1
@@ -714,11 +766,18 @@ func doLog(toks []string) core.Result {
 			stray = j
 		}
 	}
-	rawOf := func(j int) []byte {
-		if j < len(ind) {
+	rawOf := func(j int) []byte { // raw frame bytes, with the op's id in place of a context id
+		if j >= len(ind) {
+			return nil
+		}
+		if !viaMod || len(ind[j].raw) < 10 {
 			return ind[j].raw
 		}
-		return nil
+		raw := append([]byte(nil), ind[j].raw...)
+		if i, ok := owner[key{ind[j].id, ind[j].mt}]; ok {
+			copy(raw[2:10], ms[i].id[:8])
+		}
+		return raw
 	}
 
 	var out []string
@@ -852,17 +911,17 @@ func (e *ex) Do(op string) core.Result {
 	case len(t) == 2 && t[0] == "read":
 		return doRead(t[1])
 	case len(t) >= 2 && t[0] == "log":
-		return doLog(t[1:])
+		return doLog(t[1:], false)
 	case len(t) == 2 && t[0] == "m": // one message of the next `run`
 		e.queue = append(e.queue, t[1])
 		return core.Result{Impl: "queued"}
-	case len(t) == 1 && t[0] == "run":
+	case len(t) == 1 && (t[0] == "run" || t[0] == "runmod"): // runmod: through marbl.Modifier
 		q := e.queue
 		e.queue = nil
 		if len(q) == 0 {
 			return core.Result{Impl: "bad-op"}
 		}
-		return doLog(q)
+		return doLog(q, t[0] == "runmod")
 	}
 	return core.Result{Impl: "bad-op"}
 }
